@@ -162,7 +162,8 @@ theorem contains_convex_any_lon (poly : Polygon ℝ) (hb : poly.Built) (o : ℝ)
     · unfold Coo.NonPole; rw [pert_lat, zero_mul, add_zero]; exact hpn
     · intro v hv; rw [pert_lon, one_mul]; exact h2 v hv
   · rintro p' ⟨q1, q2, q3⟩ hg
-    exact contains_convex poly hb o h p' q1 q2 q3 hg
+    exact contains_convex poly hb o h p' q1 q2 q3
+      (fun hall e he => lt_of_le_of_ne (hall e he) (Ne.symm (mul_ne_zero ho0 (hg e he))))
 
 /-- **`Polygon::contains` on convex polygons, final form.**  For a polygon as built by `Polygon::new` from a strictly
     convex list of at least 3 vertices (either winding), contained in an open hemisphere, with neither pole in the closed
